@@ -109,6 +109,7 @@ func (s C07) Events(env world.Env, mm mc.Model) []string {
 		evs = append(evs, "Buy:"+u+":1", "Buy:"+u+":2")
 	}
 	evs = append(evs, "BuyFor:U2:U1:2", "BuyFor:U1:U2:1") // one account pays for the other's plan
+	evs = append(evs, "BuyX:U1:2500000000:30", "BuyX:U1:1900000000:90", "BuyX:U1:1500000001:60") // sizes that are not whole gigabytes, longer terms
 	if m.Posts < 4 {
 		for _, u := range c07Users {
 			for _, s := range []string{"400", "600"} {
@@ -212,6 +213,13 @@ func (C07) Apply(env world.Env, mm mc.Model, ev string) mc.Step {
 		}
 		st.Outcome = "block"
 		via = "block"
+	case "BuyX":
+		by, _ := strconv.ParseInt(p[2], 10, 64)
+		days, _ := strconv.ParseInt(p[3], 10, 64)
+		a := w.A(p[1]).Bech
+		if env.Deliver(storagetypes.NewMsgBuyStorage(a, a, days, by, "ujkl")).OK() {
+			st.Outcome = "ok"
+		}
 	case "BuyFor":
 		gbs, _ := strconv.ParseInt(p[3], 10, 64)
 		if env.Deliver(storagetypes.NewMsgBuyStorage(w.A(p[1]).Bech, w.A(p[2]).Bech, 30, gbs*1_000_000_000, "ujkl")).OK() {
